@@ -150,6 +150,20 @@ def _geometry_job(job):
                     for b in words:
                         if not one(old_blk, pos, b.to_bytes(2, "big")):
                             return n, out, dd
+            if is_temp:
+                # one update (full refresh) that flips the unit setting: alone (stored reading unchanged -> silent) and together
+                # with a reading change that happens to decode to the same number in the other unit (must notify)
+                for u_old in (0, 1):
+                    for raw_old, raw_new in ((540, 540), (0, 0), (65535, 65535), (180, 900), (900, 180), (540, 541), (320, 0)):
+                        ob = base[:upos] + bytes([u_old]) + base[upos + 1:]
+                        ob = ob[:pos] + raw_old.to_bytes(2, "big") + ob[pos + 2:]
+                        nbk = ob[:upos] + bytes([1 - u_old]) + ob[upos + 1:]
+                        nbk = nbk[:pos] + raw_new.to_bytes(2, "big") + nbk[pos + 2:]
+                        if not one(ob, 0, nbk):
+                            return n, out, dd
+                        lo_, hi_ = min(pos, upos), max(pos + 2, upos + 1)
+                        if not one(ob, lo_, nbk[lo_:hi_]):
+                            return n, out, dd
             # every patch geometry around the item, boundary contents
             for offset in range(max(0, pos - 2), min(1024, pos + f.width + 2)):
                 for ln in range(1, 5):
@@ -217,6 +231,14 @@ def _table_job(job):
 
         if not check(A, 0, B, "full refresh"):
             continue
+        if units is not None:
+            uf = field_of(units._decl)
+            A2 = uf.put_raw(A, 0)
+            A3 = uf.put_raw(A, 1)
+            if not check(A2, 0, A3, "full refresh that only flips the temperature unit"):
+                continue
+            if not check(A3, 0, A2, "full refresh that only flips the temperature unit back"):
+                continue
         if not check(A, 0, A, "identical full refresh"):
             continue
         for pos in range(1024):
